@@ -51,6 +51,15 @@ def hands_from_owner(owner, how=0):
     return G
 
 
+def use_deal(hands, k=0):
+    """What a table does with a deal it was given: cards leave the hands as they are played (PlayingPhaseWithHands removes
+    them in place).  Whatever was read or decoded is the caller's to use; a later read must not see it."""
+    for s in range(4):
+        h = hands[SEAT[s]]
+        for c in sorted(h, key=lambda c: CARD_IDX[c])[: 1 + (k + s) % 3]:
+            h.discard(c)
+
+
 def hands_to_ints(hands):
     return [sorted(CARD_IDX[c] for c in hands[SEAT[s]]) for s in range(4)]
 
